@@ -378,3 +378,22 @@ def run(repo, rep, tier):  # noqa: F811 -- round-5 borrowings appended to the ru
 _ADDR5D = ' Borrowed: R13.6 / R13.10 (first call and later calls with a dialect go through the same call text: encoder options and arguments agree on the cache-hit and the compile path).'
 EXPLANATION += _ADDR5D
 LEVEL_TEXT += _ADDR5D
+
+
+_run_before_r6b = run
+
+
+def run(repo, rep, tier):  # noqa: F811 -- round-6 remedies (core/round6.py)
+    _run_before_r6b(repo, rep, tier)
+    if getattr(rep, "borrowed", False):
+        return
+    from ..core import round6 as _r6b
+    _r6b.dispatcher_paths_agree(repo, rep, "R13.12")
+    _r6b.default_dialect_is_default(repo, rep, "R13.13")
+    from ..core import helper_contracts as _hc6
+    _hc6.report(repo, rep, "R07.7", _hc6.field_default_contract(repo), "mashumaro.core.meta.code.builder::CodeBuilder.get_field_default")
+
+
+_ADDR6C = '  Borrowed: R13.12, R13.13, R07.7.'
+EXPLANATION += _ADDR6C
+LEVEL_TEXT += _ADDR6C
